@@ -3281,6 +3281,14 @@ Box<ITV>
   if (is_empty()) {
     return;
   }
+  // A negative denominator is handled by negating the three arguments:
+  // lb/d <= var' <= ub/d is the same as (-lb)/(-d) <= var' <= (-ub)/(-d).
+  if (denominator < 0) {
+    PPL_DIRTY_TEMP_COEFFICIENT(minus_denominator);
+    neg_assign(minus_denominator, denominator);
+    bounded_affine_image(var, -lb_expr, -ub_expr, minus_denominator);
+    return;
+  }
   // Add the constraint implied by the `lb_expr' and `ub_expr'.
   if (denominator > 0) {
     refine_with_constraint(lb_expr <= ub_expr);
